@@ -15,6 +15,12 @@ CHECKS = {
     "C08": dict(level="proof", technique="table rules (totality, uniqueness, round trip) against the EnumDecls; every spelling parsed by an independent unit grammar and compared in magnitude; term evaluation of the lookup idioms",
                 text="One obligation per enumeration, enumerator, spelling and lookup function; all discharged exactly. 'Other strings parse to nothing' follows from the checked-find idiom.",
                 note="trusted: clang front end, oracle/units.py lexicon, unordered_map first-key-wins semantics", ref="3/C08"),
+    "C17": dict(level="proof", technique="record-layout facts (clang ASTRecordLayout: size, single member, no vptr, trivially copyable, standard layout) for every instantiated class x 3 numeric types; term evaluation of Zero/Value/SetValue/MutableValue; g++/clang static_assert batch in the thorough tier",
+                text="One obligation per class and numeric type and per accessor; all are compile-time facts read from the type-checked program, so the decided part is the whole statement.",
+                note="trusted: clang's record layout = Itanium ABI layout used by g++ (cross-checked by the g++ static_assert batch in the thorough tier)", ref="3/C17"),
+    "C19": dict(level="proof", technique="initialisation-order classification of every namespace-scope variable per [basic.start.dynamic] + who-reads walk over all instantiated bodies; known-findings file for the triaged defect",
+                text="Every PhQ namespace-scope variable is classified constant / partially-ordered / ordered / unordered; any library function reading an unordered one is reported. On the pinned tree this reports the conversion dispatch tables (genuine defect, replayed: crash before main with g++), recorded as two known findings; every other table family is proved ordered before user objects.",
+                note="trusted: clang's TemplateSpecializationKind/isInline/hasConstantInitialization; the C++17 standard's ordering rules", ref="3/C19, 4.3"),
 }
 
 NOT_YET = {
